@@ -80,6 +80,23 @@ fn check(ctx: &Ctx, c: &Case, label: &str, counting: bool) -> Result<(), Fail> {
 	} else if g.hash.is_some() {
 		return Err(fail("unrequested", format!("hash {:?} reported although not requested", g.hash)));
 	}
+	// the `debug` option (dumps event payloads into a directory) must change neither: no hash unless
+	// requested, the exact digest if requested
+	if bytes.len() <= 4096 && rt::hash_bytes(&bytes) % 16 == 9 {
+		let h = rt::with_debug_dir(|dir| {
+			let o = peppi::io::slippi::de::Opts { skip_frames: c.skip, compute_hash: c.hash, debug: Some(peppi::io::slippi::de::Debug { dir: dir.to_path_buf() }) };
+			let mut r = SchedReader::new(&bytes, c.sched.clone());
+			rt::guard(|| peppi::io::slippi::read(&mut r, Some(&o))).expect_ok("slippi::read(debug option)").map(|g| g.hash)
+		})
+		.map_err(|f| f.with_file("slp", &bytes).with_detail(detail.clone()))?;
+		if counting {
+			ctx.class("with_debug_option");
+		}
+		let want_h = if c.hash { Some(want.clone()) } else { None };
+		if h != want_h {
+			return Err(fail("debug_option", format!("with the debug option: hash {:?}, expected {:?} (compute_hash={})", h, want_h, c.hash)));
+		}
+	}
 	// carried unchanged through .slpp
 	if counting && c.hash && (file.len() % 4 == 0) {
 		let h0 = g.hash.clone();
